@@ -21,6 +21,7 @@ const (
 	verifAccIncrLastKey
 	verifAccIncrLSN
 	verifAccSetPageTableRoot
+	verifAccReadHeader
 )
 
 const (
